@@ -41,16 +41,16 @@ Print Assumptions C48_verdict_table_total.
    react chains p = reaction of the server to the verdict of the chain registered at point p;
    earlier_pass chains p = every request-phase point before p let the request pass. *)
 
-(* A close verdict (HandleAccept; HandleBeforeLocation / FoundProduct / AfterLocation) sends nothing to the client,
+(* A close verdict (HandleAccept, HandleHandshake on TLS connections; HandleBeforeLocation / FoundProduct / AfterLocation) sends nothing to the client,
    contacts no backend and closes the connection. *)
 Theorem C48_close_sends_nothing : forall chains bst p,
   In p [PBeforeLocation; PFoundProduct; PAfterLocation] -> earlier_pass chains p -> react chains p = RCloseDirect ->
   let q := serve_request chains bst in q_reply q = no_reply /\ q_contacted q = 0 /\ q_keep q = false.
 Proof. exact close_sends_nothing. Qed.
 Print Assumptions C48_close_sends_nothing.
-Theorem C48_accept_close_sends_nothing : forall h bst chains,
-  react chains PAccept = RCloseDirect ->
-  let k := serve_conn h bst chains in k_reply k = no_reply /\ k_contacted k = 0 /\ k_open k = 0.
+Theorem C48_accept_close_sends_nothing : forall h bst tls chains,
+  react chains PAccept = RCloseDirect \/ (tls = true /\ react chains PHandshake = RCloseDirect) ->
+  let k := serve_conn h bst tls chains in k_reply k = no_reply /\ k_contacted k = 0 /\ k_open k = 0.
 Proof. exact accept_close_sends_nothing. Qed.
 Print Assumptions C48_accept_close_sends_nothing.
 
